@@ -52,6 +52,8 @@ func c12LeanInput(s c12Seq) map[string]interface{} {
 		case s.Owners <= 1:
 			if len(op.Vals) > 0 && len(op.Vals[0]) > 0 {
 				vals = [][]int{op.Vals[0]}
+			} else if op.Empty {
+				vals = [][]int{{}} // ONE argument holding no value (an empty slice): the save still runs
 			}
 		default:
 			for i := 0; i < s.Owners; i++ {
@@ -142,6 +144,7 @@ func c12Tie(r *Result, seqs []c12Seq, suite string) {
 		r.Violate(Violation{Kind: "correspondence", Suite: suite, Note: err.Error()})
 		return
 	}
+	reals := c12ExecAll(seqs)
 	for i, s := range seqs {
 		k := c12KindByName(s.Kind)
 		var lean []c12LeanObs
@@ -149,7 +152,7 @@ func c12Tie(r *Result, seqs []c12Seq, suite string) {
 			r.Violate(Violation{Kind: "correspondence", Suite: suite, Input: s, Observed: string(outs[i]), Note: "model rejected the sequence: " + err.Error()})
 			continue
 		}
-		real := c12Exec(s)
+		real := reals[i]
 		r.Case(suite, canon(s), c12SeqNontrivial(s))
 		c12Branches(r, s)
 		for step := range s.Ops {
@@ -173,6 +176,7 @@ func c12Tie(r *Result, seqs []c12Seq, suite string) {
 
 func init() {
 	register("C12", func(r *Result, rng *rand.Rand, tier string) {
+		defer c12Timed("tie")()
 		n := 4000
 		if tier == "thorough" {
 			n = 70000
@@ -184,7 +188,7 @@ func init() {
 			kinds = append(kinds, k.Name)
 		}
 		// half of the sequences run INSIDE the patterns of the listed findings: the model reproduces the defects too
-		cfg := c12GenCfg{Kinds: kinds, Unscoped: 0.4, Slice: 0.4, MaxLen: 8, Avoid: 0.5}
+		cfg := c12GenCfg{Kinds: kinds, Unscoped: 0.4, Slice: 0.4, MaxLen: 8, Avoid: 0.5, Tie: true}
 		var batch []c12Seq
 		for i := 0; i < n && !expired(); i++ {
 			s := c12GenSeq(rng, cfg)
